@@ -1321,6 +1321,151 @@ def gen_schema(repo, out_path):
     return text
 
 
+# ------------------------------------------------------------------ settings type descriptors (C19)
+
+SETTINGS_ITEMS = [
+    # (file, item name)   -- structs and enums deriving Serialize + Deserialize
+    ("src/stepsize/dual_avg.rs", "DualAverageOptions"),
+    ("src/stepsize/adam.rs", "AdamOptions"),
+    ("src/stepsize/adapt.rs", "StepSizeAdaptMethod"),
+    ("src/stepsize/adapt.rs", "StepSizeAdaptOptions"),
+    ("src/stepsize/adapt.rs", "StepSizeSettings"),
+    ("src/transform/adapt/diagonal.rs", "DiagAdaptExpSettings"),
+    ("src/transform/low_rank.rs", "LowRankSettings"),
+    ("src/external_adapt_strategy.rs", "FlowSettings"),
+    ("src/adapt_strategy.rs", "EuclideanAdaptOptions"),
+    ("src/dynamics/transformed_hamiltonian.rs", "KineticEnergyKind"),
+    ("src/mclmc.rs", "MclmcTrajectoryKind"),
+    ("src/sampler.rs", "NutsSettings"),
+    ("src/sampler.rs", "MclmcSettings"),
+]
+SETTINGS_PRESETS = ["DiagNutsSettings", "LowRankNutsSettings", "FlowNutsSettings",
+                    "DiagMclmcSettings", "LowRankMclmcSettings", "FlowMclmcSettings"]
+
+
+def item_decl(rf, name):
+    """('struct'|'enum', attrs text, generics text, body, line)"""
+    m = re.search(r"\b(struct|enum)\s+%s\b\s*(<[^{]*?>)?\s*(where[^{]*)?\{" % re.escape(name), rf.src)
+    if not m:
+        raise Untranslatable(f"{rf.path}: item {name} not found")
+    end = find_matching(rf.src, m.end() - 1)
+    pre = rf.src[:m.start()]
+    attrs = []
+    while True:
+        mm = re.search(r"(#\[[^\]]*\]|pub(\([a-z]+\))?)\s*$", pre)
+        if not mm:
+            break
+        attrs.insert(0, mm.group(1))
+        pre = pre[:mm.start()]
+    return m.group(1), " ".join(attrs), (m.group(2) or ""), rf.src[m.end():end], rf.line_of(m.start())
+
+
+def settings_ty(ty, generics, known, where):
+    if ty[0] != "path":
+        raise Untranslatable(f"{where}: type {ty} outside subset")
+    n, args = ty[1], ty[2]
+    if n in ("f64",):
+        return ".f64"
+    if n in ("u64", "usize"):
+        return ".u64"
+    if n == "bool":
+        return ".bool"
+    if n == "Option":
+        return "(.opt " + settings_ty(args[0], generics, known, where) + ")"
+    if n in generics:
+        return n
+    if n in known:
+        if args:
+            return "(" + n + " " + " ".join(settings_ty(a, generics, known, where) for a in args) + ")"
+        return n
+    raise Untranslatable(f"{where}: unknown settings type {n}")
+
+
+def gen_settings(repo, out_path):
+    files = {}
+    lines = ["/- GENERATED by tools/rs2lean.py from the Serialize/Deserialize settings types of /repo -- do not edit. -/",
+             "import NutsModel.Model.Serde", "", "namespace NutsModel.Gen.Settings", "open NutsModel.Model", ""]
+    known = {}
+    for (rel, name) in SETTINGS_ITEMS:
+        if rel not in files:
+            files[rel] = RustFile(os.path.join(repo, rel))
+        rf = files[rel]
+        kind, attrs, gen, body, line = item_decl(rf, name)
+        where = f"{rel}:{line}"
+        if "Serialize" not in attrs or "Deserialize" not in attrs:
+            raise Untranslatable(f"{where}: {name} does not derive Serialize and Deserialize")
+        if "serde(" in attrs.replace(" ", "") or re.search(r"#\s*\[\s*serde", body):
+            raise Untranslatable(f"{where}: {name} carries #[serde(...)] attributes (skip/rename/default/flatten are outside the model)")
+        generics = [g.split(":")[0].strip() for g in gen.strip()[1:-1].split(",")] if gen.strip() else []
+        generics = [g for g in generics if g]
+        if kind == "struct":
+            fields = parse_struct_fields(body, rel, line)
+            expr = ".nil"
+            for (fname, fty, fattrs) in reversed(fields):
+                expr = f'.cons "{fname}" {settings_ty(fty, generics, known, where)} ({expr})'
+            rhs = f".struct ({expr})"
+        else:
+            toks = tokenize(body, rel)
+            p = Parser(toks, rel)
+            variants = []
+            while p.cur.kind != "eof":
+                while p.at("#"):
+                    p.i += 1
+                    p.expect("[")
+                    depth = 1
+                    while depth:
+                        if p.at("["):
+                            depth += 1
+                        if p.at("]"):
+                            depth -= 1
+                        p.i += 1
+                vname = p.ident()
+                payload = None
+                if p.at("("):
+                    p.i += 1
+                    payload = p.ty()
+                    if p.at(","):
+                        raise Untranslatable(f"{where}: tuple variant {vname} with several fields")
+                    p.expect(")")
+                elif p.at("{"):
+                    raise Untranslatable(f"{where}: struct variant {vname} outside subset")
+                variants.append((vname, payload))
+                if not p.eat(","):
+                    break
+            expr = ".nil"
+            for (vname, payload) in reversed(variants):
+                if payload is None:
+                    expr = f'.unit "{vname}" ({expr})'
+                else:
+                    expr = f'.newtype "{vname}" {settings_ty(payload, generics, known, where)} ({expr})'
+            rhs = f".enum ({expr})"
+        params = " ".join(f"({g} : STy)" for g in generics)
+        lines.append(f"/-- `{rel}:{line}` {kind} {name} -/")
+        lines.append(f"def {name} {params} : STy :=\n  {rhs}")
+        lines.append("")
+        known[name] = len(generics)
+    # the preset type aliases of src/sampler.rs
+    rf = files["src/sampler.rs"]
+    for alias in SETTINGS_PRESETS:
+        m = re.search(r"\bpub\s+type\s+%s\s*=\s*([^;]+);" % re.escape(alias), rf.src)
+        if not m:
+            raise Untranslatable(f"src/sampler.rs: type alias {alias} not found")
+        toks = tokenize(m.group(1), "src/sampler.rs")
+        ty = Parser(toks, "src/sampler.rs").ty()
+        lines.append(f"/-- `src/sampler.rs:{rf.line_of(m.start())}` type {alias} -/")
+        lines.append(f"def {alias} : STy := {settings_ty(ty, [], known, 'src/sampler.rs')}")
+        lines.append("")
+    lines.append("def presets : List (String × STy) := [" + ", ".join(f'("{a}", {a})' for a in SETTINGS_PRESETS) + "]")
+    lines.append("")
+    lines.append("end NutsModel.Gen.Settings")
+    text = "\n".join(lines) + "\n"
+    os.makedirs(os.path.dirname(out_path), exist_ok=True)
+    old = open(out_path).read() if os.path.exists(out_path) else None
+    if old != text:
+        open(out_path, "w").write(text)
+    return text
+
+
 def main(argv):
     import argparse
     ap = argparse.ArgumentParser()
@@ -1328,10 +1473,14 @@ def main(argv):
     ap.add_argument("--out", default=os.path.join(os.path.dirname(os.path.abspath(__file__)), "..", "lean", "NutsModel", "Gen"))
     ap.add_argument("modules", nargs="*")
     a = ap.parse_args(argv)
-    mods = a.modules or (list(MODULES) + ["Schema"])
+    mods = a.modules or (list(MODULES) + ["Schema", "Settings"])
     rc = 0
     for m in mods:
         try:
+            if m == "Settings":
+                gen_settings(a.repo, os.path.join(a.out, "Settings.lean"))
+                print("rs2lean: generated Gen/Settings.lean")
+                continue
             if m == "Schema":
                 gen_schema(a.repo, os.path.join(a.out, "Schema.lean"))
                 print("rs2lean: generated Gen/Schema.lean")
